@@ -63,6 +63,7 @@ type Addr struct {
 	PathN []string    // field names
 	Cell  *ssa.Alloc  // ACell
 	CIdx  string      // ACell on array: index term ("" if none)
+	Post  []int       // ACell on array of structs: field path AFTER the index (&cell[i].f)
 	Sl    *Val        // AIndex
 	Idx   string      // AIndex
 	Glob  *ssa.Global // AGlobal
@@ -182,6 +183,83 @@ func (x *VC) sortOf(t types.Type) string {
 		x.refuse("generic code")
 	}
 	return ""
+}
+
+// dtStructs: struct types that are modelled as SMT datatypes when they are ELEMENTS of slices/arrays (so that a
+// slice of such structs is an array of records, not of opaque handles). Allow-listed: the BSON element type that
+// MongoDB filters, sort documents and updates are made of.
+var dtStructs = map[string]bool{
+	"go.mongodb.org/mongo-driver/bson/primitive.E": true,
+}
+
+// dtSort returns the datatype sort of struct type t ("" if t is not modelled as a datatype); declares it on first use.
+func (x *VC) dtSort(t types.Type) string {
+	n := namedOf(t)
+	su, ok := t.Underlying().(*types.Struct)
+	if n == nil || !ok || !dtStructs[shortTypeFull(n)] {
+		return ""
+	}
+	name := "DT_" + sanitize(shortTypeFull(n))
+	if !x.externs["decl:"+name] {
+		var fs []string
+		for i := 0; i < su.NumFields(); i++ {
+			fsrt := x.sortOf(su.Field(i).Type())
+			if fsrt == "" {
+				return ""
+			}
+			fs = append(fs, fmt.Sprintf("(%s_%s %s)", name, su.Field(i).Name(), fsrt))
+		}
+		x.externs["decl:"+name] = true
+		x.emit(fmt.Sprintf("(declare-datatypes ((%s 0)) (((mk_%s %s))))", name, name, strings.Join(fs, " ")))
+		if x.dtZero == nil {
+			x.dtZero = map[string]string{}
+		}
+		var zs []string
+		for i := 0; i < su.NumFields(); i++ {
+			zs = append(zs, x.zero(su.Field(i).Type()).T)
+		}
+		x.dtZero[name] = "(mk_" + name + " " + strings.Join(zs, " ") + ")"
+	}
+	return name
+}
+
+// elemSortOf: the SMT sort of an element of a slice/array of t ("Int" = opaque handle for unmodelled composites).
+func (x *VC) elemSortOf(t types.Type) string {
+	if s := x.sortOf(t); s != "" {
+		return s
+	}
+	if s := x.dtSort(t); s != "" {
+		return s
+	}
+	return "Int"
+}
+
+// packStruct / unpackStruct convert between a struct value (one Val per field) and a datatype term.
+func (x *VC) packStruct(v *Val) string {
+	name := x.dtSort(v.GT)
+	if name == "" || v.K != KStruct {
+		x.refuse("struct value of unmodelled element type %v", v.GT)
+	}
+	var fs []string
+	for _, f := range v.Fs {
+		if f.K != KScalar {
+			x.refuse("nested composite inside %s", name)
+		}
+		fs = append(fs, f.T)
+	}
+	return "(mk_" + name + " " + strings.Join(fs, " ") + ")"
+}
+
+func (x *VC) unpackStruct(term string, t types.Type, st *State) *Val {
+	name := x.dtSort(t)
+	su := t.Underlying().(*types.Struct)
+	v := &Val{K: KStruct, GT: t}
+	for i := 0; i < su.NumFields(); i++ {
+		ft := su.Field(i).Type()
+		f := &Val{K: KScalar, T: fmt.Sprintf("(%s_%s %s)", name, su.Field(i).Name(), term), S: x.sortOf(ft), GT: ft}
+		v.Fs = append(v.Fs, f)
+	}
+	return v
 }
 
 func (x *VC) idxSort() string {
@@ -328,10 +406,7 @@ func (x *VC) zero(t types.Type) *Val {
 		}
 		return x.scalar("0", t)
 	case *types.Slice:
-		es := x.sortOf(u.Elem())
-		if es == "" {
-			es = "Int" // slices of composites: elements are opaque handles
-		}
+		es := x.elemSortOf(u.Elem()) // slices of unmodelled composites: elements are opaque handles
 		return &Val{K: KSlice, Arr: x.constArray(es), Off: x.ilit(0), Len: x.ilit(0), ES: es, GT: t}
 	case *types.Struct:
 		v := &Val{K: KStruct, GT: t}
@@ -340,10 +415,7 @@ func (x *VC) zero(t types.Type) *Val {
 		}
 		return v
 	case *types.Array:
-		es := x.sortOf(u.Elem())
-		if es == "" {
-			es = "Int"
-		}
+		es := x.elemSortOf(u.Elem())
 		return &Val{K: KSlice, Arr: x.constArray(es), Off: x.ilit(0), Len: x.ilit(u.Len()), ES: es, GT: t}
 	case *types.Tuple:
 		v := &Val{K: KStruct, GT: t}
@@ -375,6 +447,9 @@ func (x *VC) zeroOfSort(s string) string {
 		idx, el := splitArraySort(s)
 		return fmt.Sprintf("((as const (Array %s %s)) %s)", idx, el, x.zeroOfSort(el))
 	}
+	if z, ok := x.dtZero[s]; ok {
+		return z
+	}
 	return "0"
 }
 
@@ -405,10 +480,7 @@ func (x *VC) constArray(es string) string {
 func (x *VC) fresh(t types.Type, hint string, guard string, st *State) *Val {
 	switch u := t.Underlying().(type) {
 	case *types.Slice:
-		es := x.sortOf(u.Elem())
-		if es == "" {
-			es = "Int"
-		}
+		es := x.elemSortOf(u.Elem())
 		v := &Val{K: KSlice, ES: es, GT: t}
 		v.Arr = x.declare(hint+"_arr", fmt.Sprintf("(Array %s %s)", x.idxSort(), es))
 		v.Off = x.ilit(0)
@@ -431,7 +503,13 @@ func (x *VC) fresh(t types.Type, hint string, guard string, st *State) *Val {
 		}
 		return v
 	case *types.Array:
-		x.refuse("array value of type %s", t)
+		// an array value: unconstrained elements, fixed length
+		es := x.elemSortOf(u.Elem())
+		v := &Val{K: KSlice, ES: es, GT: t}
+		v.Arr = x.declare(hint+"_arr", fmt.Sprintf("(Array %s %s)", x.idxSort(), es))
+		v.Off = x.ilit(0)
+		v.Len = x.ilit(u.Len())
+		return v
 	}
 	s := x.sortOf(t)
 	n := x.declare(hint, s)
